@@ -180,6 +180,16 @@ namespace bloch::compiler {
                    (t.value == ValueType::Boolean || t.value == ValueType::Bit);
         }
 
+        // '@tracked' may annotate qubit and qubit[] only (a type parameter may stand for either)
+        bool isTrackableType(const SemanticAnalyser::TypeInfo& t) {
+            if (t.isTypeParam)
+                return true;
+            if (t.className.empty())
+                return t.value == ValueType::Qubit;
+            return isArrayType(t) && !t.typeArgs.empty() && t.typeArgs[0].className.empty() &&
+                   t.typeArgs[0].value == ValueType::Qubit;
+        }
+
         bool isBitArrayType(const SemanticAnalyser::TypeInfo& t) {
             return isArrayType(t) && !t.typeArgs.empty() && t.typeArgs[0].className.empty() &&
                    t.typeArgs[0].value == ValueType::Bit;
@@ -1110,6 +1120,10 @@ namespace bloch::compiler {
                     f.hasInitializer = field->initializer != nullptr;
                     f.isTracked = field->isTracked;
                     f.type = typeFromAst(field->fieldType.get());
+                    if (field->isTracked && !isTrackableType(f.type)) {
+                        throw BlochError(ErrorCategory::Semantic, field->line, field->column,
+                                         "'@tracked' may annotate 'qubit' or 'qubit[]' only");
+                    }
                     f.owner = info.name;
                     f.line = field->line;
                     f.column = field->column;
@@ -1704,6 +1718,10 @@ namespace bloch::compiler {
         if (tinfo.value == ValueType::Void) {
             throw BlochError(ErrorCategory::Semantic, node.line, node.column,
                              "variables cannot have type 'void'");
+        }
+        if (node.isTracked && !isTrackableType(tinfo)) {
+            throw BlochError(ErrorCategory::Semantic, node.line, node.column,
+                             "'@tracked' may annotate 'qubit' or 'qubit[]' only");
         }
         for (const auto& ann : node.annotations) {
             if (ann && ann->name == "quantum") {
